@@ -2,21 +2,51 @@
 C05 — nothing created for a process outlives it; process-local stores never wedge; a lazily
 initialised value is computed at most once per process.
 
-Part 1: theorems about `Uniflow.Local`, the small-step model of pkg/process/local.go (with
-`Process.AddExitHook` / `Process.Exit`). Every theorem quantifies over ALL schedules
-(`sched : List Act`: any number of threads and processes, any interleaving of the atomic steps of
-Store / Load / Keys / LoadOrStore / Delete / AddStoreHook / Close / Exit / AddExitHook).
-Helper lemmas and the inductive invariants are in `Uniflow/Proofs/Local.lean`.
+What is PROVED here (each for all histories / schedules, no size bound), and about which model:
 
-Part 2 (ports) is at the end: theorems about `Uniflow.PortMaps`.
+1. process-local store (`Uniflow.Local`, pkg/process/local.go + AddExitHook / Exit): no residue, no
+   deadlock, lazy-once, the pinned `Store` deadlock.            `C05.local_*`, `C05.lazy_*`
+2. port endpoint maps (`Uniflow.PortMaps`, pkg/port/inport.go, outport.go): no entry and no open
+   endpoint for a terminated process at quiescence, the status-check window, no deadlock. `C05.ports_*`
+3. pump goroutines (`Uniflow.PortMaps.pumps`): the number of running reader / writer pumps equals the
+   number of endpoints created and not closed, and is 0 once every process has exited; the variant
+   that allocates before the lock (seeded change c05b) leaks one.
+                                   `C05.pumps_match_endpoints`, `C05.no_pump_after_exit`, `C05.pump_leak_when_allocated_before_lock`
+4. debug agent (`Uniflow.AgentProc`, pkg/runtime/agent.go after fix 574d8e0): a process whose agent exit
+   hook has run is in neither `processes` nor `frames`, and no later packet hook brings it back; the
+   unguarded hooks of the pinned tree do.
+                                   `C05.agent_forgets_exited`, `C05.agent_stays_forgotten`, `C05.pinned_agent_frames_residue`
+5. node tracers (`Uniflow.Tracer` / `Uniflow.ATracer`, pkg/packet/tracer.go): after any
+   protocol-conforming call history, once the node's loops for a process have ended nothing in the seven
+   maps mentions the process; the variant of seeded change c05c keeps a `reader` entry.
+                                   `C05.tracer_no_residue`, `C05.tracer_empty_single_process`, `C05.tracer_c05c_residue`
+   ASSUMED about the node loops at process exit (pkg/node/onetoone.go, onetomany.go, manytoone.go; the
+   node model `Uniflow.Node` has no loop-end steps, so this is a hypothesis of the theorem, not a lemma):
+     * `Settled`: each forward loop has left its last iteration – every packet derived from a request
+       it read has been passed to `Tracer.Write` (accepted by a writer of the process, or echoed);
+     * at the end of the forward loop (`Drop(outWriter)`, `Drop(errWriter)`) and of each backward loop
+       (`Drop(outWriter)` after `range outWriter.Receive()`), `Tracer.Drop(w)` has run for every writer
+       `w` of the process after the last accepted `Write` on it. In the call history a `Drop(w)` is
+       written as the `Receive(w, dropped)` calls it stands for (one per pending packet, the same
+       `receive; resolve` per packet: `C02.drop_answers_pending`, and `C05.tracer_no_residue_nonvacuous`
+       on a concrete flight); that `Drop` always removes the key `w` is the unproved
+       `C05.tracer_drop_detaches_full`.
+   That the real loops do end (readers / writers get closed at exit) is C03's teardown.
+
+What stays OBSERVED by the harness (harness/c05/flow.go, after a settle loop, on real workflows): that
+the node goroutines actually reach their loop ends and that no goroutine with a uniflow/pkg frame is
+left (runtime.Stack profile) – the Go scheduler and channels are not modelled. The agent's two key sets
+and the port maps / pump counts are additionally compared with the models on every run.
 
 Modelled, not verified: Go's mutexes and scheduler (atomic-step semantics); user call-outs
 (initialiser, store hooks, foreign exit hooks) terminate and do not call back into the same Local.
-Goroutine termination and the tracer / agent maps are observed by the harness, not proved here
-(the tracer's `tracer_quiescent_empty` belongs to C02).
+Helper lemmas and the inductive invariants are in `Uniflow/Proofs/{Local,PortMaps,AgentProc,TracerExit}.lean`.
 -/
 import Uniflow.Proofs.Local
 import Uniflow.Proofs.PortMaps
+import Uniflow.Proofs.AgentProc
+import Uniflow.Proofs.TracerExit
+import Uniflow.Model.TracerC05c
 
 section LocalStore
 open Uniflow.Local
@@ -416,12 +446,12 @@ theorem C05.ports_no_residue_nonvacuous :
     let sched : List Act :=
       [.call 0 (.open_ 0 0), .step 0, .step 0, .step 0, .step 0, .step 0,      -- port 0: endpoint 0
        .call 0 (.open_ 1 0), .step 0, .step 0, .step 0, .step 0, .step 0,      -- port 1: endpoint 1
-       .call 1 (.close 0), .step 1, .step 1, .step 1,                          -- Close(port 0) closes endpoint 0
+       .call 1 (.close 0), .step 1, .step 1, .step 1, .step 1,                 -- Close(port 0) closes endpoint 0
        .call 0 (.open_ 0 0), .step 0, .step 0, .step 0, .step 0, .step 0,      -- port 0 again: endpoint 2
        .call 1 (.exit 0), .step 1,                                             -- flip
        .step 1, .step 1, .step 1, .step 1, .step 1, .step 1, .step 1, .step 1, .step 1, .step 1, .step 1, .step 1, .step 1]
-    (run init (sched.take 22)).ents 0 0 = some 2 ∧ (run init (sched.take 22)).ents 1 0 = some 1 ∧
-    (run init (sched.take 22)).closed 0 = true ∧ (run init (sched.take 22)).closed 2 = false ∧
+    (run init (sched.take 23)).ents 0 0 = some 2 ∧ (run init (sched.take 23)).ents 1 0 = some 1 ∧
+    (run init (sched.take 23)).closed 0 = true ∧ (run init (sched.take 23)).closed 2 = false ∧
     (run init sched).nep = 3 ∧ (run init sched).term 0 = true ∧
     (run init sched).thr 0 = .idle ∧ (run init sched).thr 1 = .idle ∧
     (run init sched).ents 0 0 = none ∧ (run init sched).ents 1 0 = none ∧
@@ -435,7 +465,8 @@ theorem C05.ports_no_deadlock (sched : List Act) :
     ((∃ t, (run init sched).thr t ≠ .idle) → ∃ t, enabled (run init sched) t = true) ∧
     (∀ t q p e k, (run init sched).thr t = .hookWant q p e k → (run init sched).pmu q ≠ some t) := by
   have h := pmu_reach sched
-  generalize run init sched = s at h
+  have hearly := (pinv_reach sched).early
+  generalize run init sched = s at h hearly
   refine ⟨?_, ?_⟩
   · rintro ⟨t0, ht0⟩
     have wait : ∀ q, (s.pmu q = none → enabled s t0 = true) → ∃ t, enabled s t = true := by
@@ -455,7 +486,12 @@ theorem C05.ports_no_deadlock (sched : List Act) :
     | hookClose p e k => exact ⟨t0, by simp [enabled, step, hpc]⟩
     | closeWant q => exact wait q (fun hm => by simp [enabled, step, hpc, hm])
     | closeHold q => exact ⟨t0, by simp [enabled, step, hpc]⟩
-    | closeAll es => exact ⟨t0, by simp [enabled, step, hpc]⟩
+    | closeAll es =>
+      refine ⟨t0, ?_⟩
+      match es with
+      | [] => simp [enabled, step, hpc]
+      | e :: rest => simp [enabled, step, hpc]
+    | openHoldE q p e => have := hearly t0; rw [hpc] at this; cases this
     | exitFlip p => exact ⟨t0, by simp only [enabled, step, hpc]; split <;> rfl⟩
     | exitRun p hks =>
       refine ⟨t0, ?_⟩
@@ -479,3 +515,258 @@ theorem C05.ports_no_deadlock_nonvacuous :
     (run init sched).thr 1 = .openRd 0 0 ∧ enabled (run init sched) 1 = false ∧
     (run init sched).thr 2 = .hookWant 0 1 0 (.exit []) ∧ enabled (run init sched) 2 = false ∧
     enabled (run init sched) 0 = true := by decide
+
+/-! ## pump goroutines (`NewReader` / `NewWriter` start one per endpoint; it ends when the endpoint is closed) -/
+
+open Uniflow.PortMaps in
+/-- **Pumps = endpoints.** In every reachable state the number of running pump goroutines (a counter
+incremented where `Open` calls `NewReader()` / `NewWriter()` and decremented where `Close()` is called
+on an endpoint that was not closed before) equals the number of endpoints created and not closed. -/
+theorem C05.pumps_match_endpoints (sched : List Act) :
+    (run init sched).pumps = openEndpoints (run init sched) := (pinv_reach sched).pumps
+
+open Uniflow.PortMaps in
+/-- **No pump after exit.** When every thread is idle and every process for which an endpoint was ever
+created has terminated, no pump goroutine is running. -/
+theorem C05.no_pump_after_exit (sched : List Act)
+    (hidle : ∀ t, (run init sched).thr t = .idle)
+    (hterm : ∀ e, e < (run init sched).nep → (run init sched).term ((run init sched).eproc e) = true) :
+    (run init sched).pumps = 0 := by
+  rw [C05.pumps_match_endpoints]
+  exact openBelow_zero _ _ (fun e he => C05.ports_endpoints_closed sched e he (hterm e he) hidle)
+
+namespace C05ports
+open Uniflow.PortMaps
+
+/-- Two openers of the same port and process both miss the read-locked lookup; then the process exits. -/
+def twoOpeners : List Act :=
+  [.call 0 (.open_ 0 0), .step 0, .step 0,          -- t0: status ok, lookup missed, before the Lock
+   .call 1 (.open_ 0 0), .step 1, .step 1,          -- t1: the same
+   .step 0, .step 0,                                -- t0: Lock; insert; Unlock (in the gap)
+   .step 1, .step 1,                                -- t1: Lock; finds the entry; returns it
+   .step 0,                                         -- t0: AddExitHook; returns
+   .call 2 (.exit 0), .step 2, .step 2, .step 2, .step 2, .step 2, .step 2]   -- Exit: flip, hook: Lock, delete, Close; return
+
+end C05ports
+
+open Uniflow.PortMaps C05ports in
+/-- Non-vacuity of the two pump theorems, and the **c05b situation**: on the real `Open` the schedule
+`twoOpeners` creates one endpoint, one pump runs while the process lives and none after its exit; the
+variant that allocates before taking the lock (`stepEarly`, seeded change c05b) creates two, the
+loser's endpoint is dropped without `Close()`, and its pump is still running when everything is idle,
+the process has exited and the map is empty. -/
+theorem C05.pump_leak_when_allocated_before_lock :
+    (run init (twoOpeners.take 11)).nep = 1 ∧ (run init (twoOpeners.take 11)).pumps = 1 ∧
+    (run init twoOpeners).pumps = 0 ∧ (run init twoOpeners).term 0 = true ∧
+    (run init twoOpeners).thr 0 = .idle ∧ (run init twoOpeners).thr 1 = .idle ∧ (run init twoOpeners).thr 2 = .idle ∧
+    (runEarly init twoOpeners).nep = 2 ∧ (runEarly init twoOpeners).pumps = 1 ∧
+    (runEarly init twoOpeners).closed 1 = false ∧ (runEarly init twoOpeners).ents 0 0 = none ∧
+    (runEarly init twoOpeners).term 0 = true ∧
+    (runEarly init twoOpeners).thr 0 = .idle ∧ (runEarly init twoOpeners).thr 1 = .idle ∧
+    (runEarly init twoOpeners).thr 2 = .idle := by decide
+
+/-! ## the debug agent forgets exited processes (`Uniflow.AgentProc`) -/
+
+open Uniflow.AgentProc in
+/-- **The agent forgets exited processes.** For every history of agent events – `accept`, packet
+hooks (`inb` / `outb`, also of a process whose exit hook has already run: that is what
+`Reader.Close` / `Writer.Close` do with the dropped responses), status flips and exit-hook runs – a
+process for which no run of the agent's exit hook is owed (every hook registered by `accept` has run,
+which the model allows only once the process has terminated) is in neither map: not in
+`a.processes`, and `a.frames` has no key for it. More precisely a process is registered exactly
+while one hook run is owed (`C05.agent_registered_iff_hook_owed`). -/
+theorem C05.agent_forgets_exited (h : List Ev) (p : Nat)
+    (hdone : (run true init h).owed p = 0) :
+    (run true init h).procs p = false ∧ (run true init h).frames p = none := by
+  have hi := ainv_run h init ainv_init
+  have hp : (run true init h).procs p = false := by
+    cases hv : (run true init h).procs p with
+    | false => rfl
+    | true => have := (hi.reg p).mp hv; omega
+  refine ⟨hp, ?_⟩
+  cases hf : (run true init h).frames p with
+  | none => rfl
+  | some fs => have := hi.fr p (by rw [hf]; simp); rw [hp] at this; cases this
+
+open Uniflow.AgentProc in
+/-- A process is in `a.processes` exactly while one run of the agent's exit hook is owed; the hook is
+registered once per registration (never twice), and `a.frames` has a key only for a registered
+process. -/
+theorem C05.agent_registered_iff_hook_owed (h : List Ev) (p : Nat) :
+    ((run true init h).procs p = true ↔ (run true init h).owed p = 1) ∧ (run true init h).owed p ≤ 1 ∧
+    ((run true init h).frames p ≠ none → (run true init h).procs p = true) :=
+  let hi := ainv_run h init ainv_init
+  ⟨hi.reg p, hi.le p, hi.fr p⟩
+
+open Uniflow.AgentProc in
+/-- **… for ever after.** Once that is so, no later event other than a new `accept p` re-creates
+either entry: in particular no packet hook of `p`, however many dropped responses the closing
+endpoints still push through. (After a new `accept p` of the terminated process the exit hook runs
+at once – `AddExitHook` on a terminated process – and `C05.agent_forgets_exited` applies again.) -/
+theorem C05.agent_stays_forgotten (h later : List Ev) (p : Nat)
+    (hdone : (run true init h).owed p = 0)
+    (hno : ∀ e ∈ later, e.isAccept p = false) :
+    (run true init (h ++ later)).procs p = false ∧ (run true init (h ++ later)).frames p = none := by
+  obtain ⟨h1, h2⟩ := C05.agent_forgets_exited h p hdone
+  rw [run_append]
+  have := forgotten_run later p _ ⟨h1, h2, hdone⟩ hno
+  exact ⟨this.1, this.2.1⟩
+
+namespace C05agent
+open Uniflow.AgentProc
+
+def key : Uniflow.Agent.Key := { sym := 0, inPort := some 0, outPort := none }
+
+/-- one request enters through an in-port, the process exits with it unanswered, the agent's hook
+runs, then the closing reader passes the dropped response through the outbound hook -/
+def abortedFlight : List Ev :=
+  [.accept 0, .inb 0 key 1, .term 0, .hook 0, .outb 0 key 2]
+
+end C05agent
+
+open Uniflow.AgentProc C05agent in
+/-- Non-vacuity: the aborted flight meets the hypotheses, the process had a frame while it lived, and
+the late packet hook leaves both maps without it. -/
+theorem C05.agent_forgets_exited_nonvacuous :
+    (run true init (abortedFlight.take 2)).procs 0 = true ∧
+    ((run true init (abortedFlight.take 2)).frames 0).isSome = true ∧
+    (run true init abortedFlight).term 0 = true ∧ (run true init abortedFlight).owed 0 = 0 ∧
+    (run true init abortedFlight).procs 0 = false ∧ (run true init abortedFlight).frames 0 = none ∧
+    frameKeys (run true init abortedFlight) 3 = [] := by decide
+
+open Uniflow.AgentProc C05agent in
+/-- **Pinned counter-example** (the tree before fix 574d8e0, `guard = false`): on the same history the
+late outbound hook re-creates `a.frames[p]` for the terminated, forgotten process – the entry comes
+back and nothing removes it again. -/
+theorem C05.pinned_agent_frames_residue :
+    (run false init abortedFlight).term 0 = true ∧ (run false init abortedFlight).owed 0 = 0 ∧
+    (run false init abortedFlight).procs 0 = false ∧
+    ((run false init abortedFlight).frames 0).isSome = true ∧
+    frameKeys (run false init abortedFlight) 3 = [0] := by decide
+
+/-! ## node tracers keep no bookkeeping for an exited process (`Uniflow.Tracer` / `Uniflow.ATracer`) -/
+
+open Uniflow.Tracer Uniflow.ATracer in
+/-- **Tracer: no residue.** Take ANY history `cs` of calls to one node's tracer (`Read`, `Link`, `Write`
+accepted or not, `Receive` – any number of processes, readers, writers, requests in flight) that follows
+C02's call protocol. Let the readers and writers the node opened for process `p` be `Rp` / `Wp`, and
+suppose the node's loops for `p` have ended, i.e.
+
+* `hset` (forward loops): no request read on a reader of `p` is still inside its loop iteration – every
+  packet derived from it has been written or answered – and whatever it still waits for was written to
+  writers of `p` (`Settled`: the spec-level reading of "`for inPck := range inReader.Read()` has ended");
+* `hdrop` (`Tracer.Drop` at the end of the forward and backward loops): `writes` has no key for a
+  writer of `p` – `Drop(w)` detaches the key (`C05.tracer_drop_detaches`) after answering every packet
+  still awaited on `w` with a dropped packet; in `cs` that is one `Receive(w, dropped)` per pending
+  packet (`C02.drop_answers_pending`).
+
+Then nothing in the seven maps mentions `p`: no request read on a reader of `p` is left in the
+abstract state the maps represent (`TRel`), hence `reads` has no key among `p`'s readers, `writes`
+none among `p`'s writers, `reader` maps no packet to a reader of `p`, every key of `receives`,
+`sources`, `targets`, `reader` is a packet of a request still in flight – all of other processes –
+and `hooks` is empty. -/
+theorem C05.tracer_no_residue (cs : List Call) (hp : Protocol {} cs) (Rp : Rid → Bool) (Wp : Wid → Bool)
+    (hset : Settled Rp Wp (arun {} cs).1)
+    (hdrop : ∀ w, Wp w = true → aget (trun {} cs).1.writes w = none) :
+    (∀ x ∈ (arun {} cs).1.reqs, Rp x.r = false) ∧
+    (∀ r, Rp r = true → aget (trun {} cs).1.reads r = none) ∧
+    (∀ k r, aget (trun {} cs).1.reader k = some r → Rp r = false) ∧
+    (∀ k, k ∉ ids (arun {} cs).1.reqs →
+        aget (trun {} cs).1.receives k = none ∧ aget (trun {} cs).1.sources k = none ∧
+        aget (trun {} cs).1.targets k = none ∧ aget (trun {} cs).1.reader k = none) ∧
+    (trun {} cs).1.hooks = [] := by
+  obtain ⟨_, hrel, hinv⟩ := run_refines cs {} {} trel_init inv_init hp
+  obtain ⟨hf, hc⟩ := hf_hc_run cs {} {} trel_init inv_init hf_init hc_init hp
+  have hw : ∀ w, Wp w = true → getL (arun {} cs).1.wq w = [] := by
+    intro w hwp
+    have := hrel.writes w
+    rw [hdrop w hwp] at this
+    simp [getL, ← this]
+  have hnone := no_request_left _ Rp Wp hf hc hset hw
+  refine ⟨hnone, ?_, ?_, ?_, hrel.hooks⟩
+  · intro r hr
+    rw [hrel.reads r]
+    have : readsOf (arun {} cs).1 r = [] := by
+      simp only [readsOf, List.map_eq_nil_iff, List.filter_eq_nil_iff]
+      intro x hx hxr
+      have := hnone x hx
+      simp only [decide_eq_true_eq] at hxr
+      rw [hxr, hr] at this; cases this
+    rw [this]; rfl
+  · intro k r hk
+    rw [hrel.rdr k] at hk
+    obtain ⟨x, hx, hxr⟩ := rdr_of_info _ k r hk
+    rw [← hxr]; exact hnone x hx
+  · intro k hk
+    have hi := info_fresh (arun {} cs).1 k hk
+    refine ⟨by rw [hrel.recv k, hi], by rw [hrel.src k, hi], by rw [hrel.tgt k, hi], by rw [hrel.rdr k, hi]⟩
+
+open Uniflow.Tracer Uniflow.ATracer in
+/-- Corollary for a tracer that has served one process only (all readers and writers are that
+process's): once its loops have ended all seven maps are empty. -/
+theorem C05.tracer_empty_single_process (cs : List Call) (hp : Protocol {} cs)
+    (hset : Settled (fun _ => true) (fun _ => true) (arun {} cs).1)
+    (hdrop : ∀ w, aget (trun {} cs).1.writes w = none) :
+    isEmpty (trun {} cs).1 = true := by
+  obtain ⟨h1, _, _, _, _⟩ := C05.tracer_no_residue cs hp (fun _ => true) (fun _ => true) hset (fun w _ => hdrop w)
+  obtain ⟨_, hrel, _⟩ := run_refines cs {} {} trel_init inv_init hp
+  have hq : (arun {} cs).1.reqs = [] := by
+    cases hr : (arun {} cs).1.reqs with
+    | nil => rfl
+    | cons x xs => have := h1 x (by rw [hr]; simp); cases this
+  have hw : (arun {} cs).1.wq = [] :=
+    eq_nil_of_aget _ (fun w => by rw [← hrel.writes w]; exact hdrop w)
+  exact quiescent_empty_general cs hp hq hw
+
+/-- `Tracer.Drop(w)` removes the key `w` from `writes` whatever else it does (`delete(t.writes,
+writer)` comes first and neither `receive` nor `resolve` writes to `writes`). Full statement, NOT
+proved in general (it needs a frame lemma through the fuel recursion of `resolve`); it is checked on
+the concrete flight below and the harness observes `len(writes) = 0` after every aborted flight. -/
+def C05.tracer_drop_detaches_full : Prop :=
+  ∀ (t : Uniflow.Tracer.T) (w : Uniflow.Tracer.Wid),
+    Uniflow.Tracer.aget (Uniflow.Tracer.dropW true t w).1.writes w = none
+
+namespace C05tracer
+open Uniflow.Tracer Uniflow.ATracer
+
+/-- two requests read on reader 0, each linked to a derived packet accepted by writer 1; the process
+exits with both unanswered -/
+def flight : List Call :=
+  [.read 0 1, .link 1 11, .write (some 1) 11 (.pay (.atom 5)) true,
+   .read 0 2, .link 2 12, .write (some 1) 12 (.pay (.atom 6)) true]
+
+/-- what `Drop(writer 1)` stands for: one dropped response per pending packet -/
+def drops : List Call := [.answer 1 Ans.dropped, .answer 1 Ans.dropped]
+
+end C05tracer
+
+open Uniflow.Tracer Uniflow.ATracer C05tracer in
+/-- Non-vacuity: the aborted flight followed by the loop-end drops follows the protocol and meets both
+hypotheses (for the process owning reader 0 and writer 1); before the drops five of the maps are
+non-empty; `Drop` itself leaves the same empty tracer and detaches the writer. -/
+theorem C05.tracer_no_residue_nonvacuous :
+    protoB {} (flight ++ drops) = true ∧
+    (∀ x ∈ (arun {} (flight ++ drops)).1.reqs, (x.r == 0) = true → stOK (fun w => w == 1) x.st = true) ∧
+    aget (trun {} (flight ++ drops)).1.writes 1 = none ∧
+    isEmpty (trun {} flight).1 = false ∧ (trun {} flight).1.reads.length = 1 ∧
+    (trun {} flight).1.reader.length = 2 ∧
+    isEmpty (trun {} (flight ++ drops)).1 = true ∧
+    isEmpty (dropW true (trun {} flight).1 1).1 = true ∧
+    aget (dropW true (trun {} flight).1 1).1.writes 1 = none := by decide
+
+open Uniflow.Tracer in
+/-- **The c05c situation** as a counter-example of the variant tracer (`Uniflow.TracerC05c`: the reader
+loop deletes `reader[pck]` instead of `reader[read]`): two requests on one reader, the later one is
+answered first (its derived packet is not accepted – the unlinked error port – so `Write` echoes it),
+then the earlier one's answer arrives and both are flushed in one pass. The real tracer ends empty;
+the variant keeps the overtaken request's `reader` entry for ever. -/
+theorem C05.tracer_c05c_residue :
+    let t1 := (write true (link (read {} 0 1) 1 11) (some 1) 11 (.pay (.atom 5)) true).1
+    let t2 := (write true (link (read t1 0 2) 2 12) none 12 (.pay (.err [7])) false).1
+    let t3 := (receiveW true t2 1 (some (.pay (.atom 9)))).1
+    let u1 := (Uniflow.TracerC05c.write (link (read {} 0 1) 1 11) (some 1) 11 (.pay (.atom 5)) true).1
+    let u2 := (Uniflow.TracerC05c.write (link (read u1 0 2) 2 12) none 12 (.pay (.err [7])) false).1
+    let u3 := (Uniflow.TracerC05c.receiveW u2 1 (some (.pay (.atom 9)))).1
+    isEmpty t3 = true ∧
+    u3.reader = [(2, 0)] ∧ u3.reads = [] ∧ u3.writes = [] ∧ u3.receives = [] ∧ u3.panic = false ∧
+    isEmpty u3 = false := by decide
